@@ -19,6 +19,7 @@ import (
 	"os"
 	"sort"
 	"strings"
+	"time"
 
 	"github.com/superfly/macaroon"
 	"github.com/superfly/macaroon/auth"
@@ -1064,6 +1065,234 @@ func (w *bWorld) tpAttenuationEpisode() {
 	w.specBundle(bs[0].Header())
 }
 
+// ---- flyio/bundle.go ----
+
+// flyioEpisode: a bundle parsed with flyio.ParseBundle(WithFilter) from tokens of the four Fly.io
+// locations; permission tokens with 0 / 1 / 2 agreeing / 2 conflicting Organization caveats and an
+// Organization caveat inside IfPresent, rightly and wrongly keyed; queried through Count / Any /
+// Select / Filter with flyio.IsPermissionToken / IsAuthToken / IsNewAuthToken / IsSecretsToken /
+// IsForOrg / IsForOrgUnverified (and combinations) before and after Verify; flyio.UUIDs and
+// flyio.NonceEmails (compared as the nonces they are derived from, in order).
+func flyioEpisode(r *Rng, o *Out) {
+	w := &bWorld{r: r, o: o, keys: map[string]macaroon.SigningKey{}, trusted: map[string][]macaroon.EncryptionKey{}}
+	w.permLoc = flyio.LocationPermission
+	for i, n := 0, 1+r.Intn(2); i < n; i++ {
+		kid := r.Bytes(8)
+		w.kids = append(w.kids, kid)
+		w.keys[string(kid)] = r.Bytes(32)
+	}
+	w.tps = []tpParty{{flyio.LocationAuthentication, r.Bytes(32)}, {flyio.LocationNewAuthentication, r.Bytes(32)}}
+	for _, p := range w.tps {
+		if r.Bool() {
+			w.trusted[p.loc] = []macaroon.EncryptionKey{p.ka}
+		}
+	}
+	org := func(id uint64, mask resset.Action) macaroon.Caveat { return &flyio.Organization{ID: id, Mask: mask} }
+	shapes := map[string]func() []macaroon.Caveat{
+		"org0": func() []macaroon.Caveat { return nil },
+		"org1": func() []macaroon.Caveat { return []macaroon.Caveat{org(pick(r, []uint64{1, 2, 3}), resset.ActionAll)} },
+		"org2same": func() []macaroon.Caveat {
+			return []macaroon.Caveat{org(1, resset.ActionAll), org(1, resset.ActionRead)}
+		},
+		"org2conflict": func() []macaroon.Caveat {
+			return []macaroon.Caveat{org(1, resset.ActionAll), org(2, resset.ActionAll)}
+		},
+		"orgInIfPresent": func() []macaroon.Caveat {
+			return []macaroon.Caveat{&resset.IfPresent{Ifs: macaroon.NewCaveatSet(org(pick(r, []uint64{1, 2}), resset.ActionAll)), Else: resset.ActionRead}}
+		},
+		"orgAndIfPresentConflict": func() []macaroon.Caveat {
+			return []macaroon.Caveat{org(1, resset.ActionAll), &resset.IfPresent{Ifs: macaroon.NewCaveatSet(org(2, resset.ActionAll)), Else: resset.ActionAll}}
+		},
+		"orgWildcard": func() []macaroon.Caveat { return []macaroon.Caveat{org(0, resset.ActionAll)} },
+		"orgPlusApps": func() []macaroon.Caveat {
+			return []macaroon.Caveat{org(2, resset.ActionAll), &flyio.Apps{Apps: resset.ResourceSet[uint64, resset.Action]{1: resset.ActionAll}}}
+		},
+	}
+	names := make([]string, 0, len(shapes))
+	for n := range shapes {
+		names = append(names, n)
+	}
+	sort.Strings(names)
+	var parts []string
+	for i, n := 0, 2+r.Intn(4); i < n; i++ {
+		loc := pick(r, []string{flyio.LocationPermission, flyio.LocationPermission, flyio.LocationPermission, flyio.LocationAuthentication, flyio.LocationNewAuthentication, flyio.LocationSecrets, "https://elsewhere.example"})
+		kid := pick(r, w.kids)
+		key := w.keys[string(kid)]
+		keyed := "ok"
+		if r.Chance(1, 5) {
+			key = r.Bytes(32)
+			keyed = "wrongkey"
+		}
+		m, err := macaroon.New(kid, loc, key)
+		if err != nil {
+			panic(err)
+		}
+		shape := pick(r, names)
+		if err := m.Add(shapes[shape]()...); err != nil {
+			panic(err)
+		}
+		if loc == flyio.LocationPermission {
+			o.count("flyio.perm." + shape + "." + keyed)
+		} else {
+			o.count("flyio.other." + loc)
+		}
+		// sometimes a third-party caveat discharged at the authentication location
+		if loc == flyio.LocationPermission && r.Chance(1, 3) {
+			p := pick(r, w.tps)
+			it, err := newTP(p.ka, p.loc)
+			if err != nil {
+				panic(err)
+			}
+			if err := m.Add(it.cav); err != nil {
+				panic(err)
+			}
+			if r.Chance(3, 4) {
+				_, dm, err := macaroon.DischargeTicket(p.ka, p.loc, it.tp.ticket)
+				if err != nil {
+					panic(err)
+				}
+				if r.Bool() {
+					a := auth.FlyioUserID(5)
+					dm.Add(&a)
+				}
+				parts = append(parts, b64tok(w.label(), mustEnc(dm)))
+			}
+		}
+		parts = append(parts, b64tok(w.label(), mustEnc(m)))
+	}
+	if r.Chance(1, 3) {
+		parts = append(parts, pick(r, []string{"fm2_!!!", "hello", "fo1_abc"}))
+	}
+	for i := len(parts) - 1; i > 0; i-- {
+		j := r.Intn(i + 1)
+		parts[i], parts[j] = parts[j], parts[i]
+	}
+	hdr := "FlyV1 " + strings.Join(parts, ",")
+
+	var bs []*bundle.Bundle
+	var ops, outs []string
+	defer func() {
+		if p := recover(); p != nil {
+			msg := strings.ReplaceAll(strings.SplitN(fmt.Sprint(p), "\n", 2)[0], " ", "_")
+			o.emit(fmt.Sprintf("(bundle.run (scope %s) %s %s %s %s)", bundleScope, w.sxKeys(), sxTrust(w.trusted), hs(w.permLoc), strings.Join(ops, " ")), "panic:"+msg)
+		}
+	}()
+	step := func(op, out string) {
+		ops = append(ops, op)
+		outs = append(outs, out+"~"+statesStr(bs))
+	}
+	{
+		var b *bundle.Bundle
+		var err error
+		fsx := "default"
+		if r.Chance(1, 3) {
+			b, err = flyio.ParseBundleWithFilter(hdr, bundle.KeepAll)
+			fsx = "all"
+		} else {
+			b, err = flyio.ParseBundle(hdr)
+		}
+		bs = append(bs, b)
+		e := "n"
+		if err != nil {
+			e = "e"
+		}
+		step(fmt.Sprintf("(parse %s %s)", hs(hdr), fsx), "new0:"+e)
+	}
+	var genPred func(depth int) bPred
+	genPred = func(depth int) bPred {
+		k := r.Intn(11)
+		if depth <= 0 && k >= 8 {
+			k = r.Intn(8)
+		}
+		oid := pick(r, []uint64{1, 1, 2, 2, 0, 3})
+		switch k {
+		case 0:
+			return constPred(flyio.IsPermissionToken, "flyPerm")
+		case 1:
+			return constPred(flyio.IsAuthToken, "flyAuth")
+		case 2:
+			return constPred(flyio.IsNewAuthToken, "flyNewAuth")
+		case 3:
+			return constPred(flyio.IsSecretsToken, "flySecrets")
+		case 4, 5:
+			now := time.Now()
+			return constPred(flyio.IsForOrg(oid), fmt.Sprintf("(forOrg %d %d %d)", oid, now.Unix(), now.Nanosecond()))
+		case 6, 7:
+			return constPred(flyio.IsForOrgUnverified(oid), fmt.Sprintf("(forOrgUnv %d)", oid))
+		case 8:
+			a, b := genPred(depth-1), genPred(depth-1)
+			return bPred{func(x *bundle.Bundle) bundle.Predicate { return bundle.And(a.mk(x), b.mk(x)) }, "(and " + a.sx + " " + b.sx + ")"}
+		case 9:
+			a, b := genPred(depth-1), genPred(depth-1)
+			return bPred{func(x *bundle.Bundle) bundle.Predicate { return bundle.Or(a.mk(x), b.mk(x)) }, "(or " + a.sx + " " + b.sx + ")"}
+		default:
+			a := genPred(depth - 1)
+			return bPred{func(x *bundle.Bundle) bundle.Predicate { return bundle.Not(a.mk(x)) }, "(not " + a.sx + ")"}
+		}
+	}
+	query := func(phase string) {
+		i := r.Intn(len(bs))
+		b := bs[i]
+		p := genPred(1)
+		switch k := r.Intn(8); {
+		case k < 3:
+			n := b.Count(p.mk(b))
+			o.count(fmt.Sprintf("flyio.%s.count.%d", phase, min(n, 2)))
+			step(fmt.Sprintf("(count %d %s)", i, p.sx), fmt.Sprint(n))
+		case k < 5:
+			a := b.Any(p.mk(b))
+			o.count(fmt.Sprintf("flyio.%s.any.%v", phase, a))
+			step(fmt.Sprintf("(any %d %s)", i, p.sx), fmt.Sprint(a))
+		case k < 6 && len(bs) < 4:
+			bs = append(bs, b.Select(p.mk(b)))
+			o.count("flyio." + phase + ".select")
+			step(fmt.Sprintf("(select %d %s)", i, p.sx), fmt.Sprintf("new%d", len(bs)-1))
+		case k < 7 && i > 0:
+			b.Filter(p.mk(b))
+			o.count("flyio." + phase + ".filter")
+			step(fmt.Sprintf("(filter %d %s)", i, p.sx), "-")
+		default:
+			// UUIDs / NonceEmails, as the nonces they are derived from
+			byUUID := map[string]string{}
+			for _, m := range macsOf(b) {
+				byUUID[m.Nonce().UUID().String()] = hx(m.Nonce().KID) + ":" + hx(m.Nonce().Rnd)
+			}
+			us := flyio.UUIDs(b)
+			es := flyio.NonceEmails(b)
+			out := make([]string, len(us))
+			okEmails := len(es) == len(us)
+			for j, u := range us {
+				out[j] = byUUID[u]
+				if out[j] == "" {
+					out[j] = "?"
+				}
+				if okEmails && es[j] != u+"@tokens.fly.io" {
+					okEmails = false
+				}
+			}
+			res := "n:" + strings.Join(out, ",")
+			if !okEmails {
+				res += "!emails"
+			}
+			o.count("flyio." + phase + ".uuids")
+			step(fmt.Sprintf("(uuids %d)", i), res)
+		}
+	}
+	for k, n := 0, 2+r.Intn(3); k < n; k++ {
+		query("before")
+	}
+	{
+		cs, err := bs[0].Verify(context.Background(), w.resolver())
+		o.count(fmt.Sprintf("flyio.verify.%s.%d", flagStr(err), min(len(cs), 3)))
+		step("(verify 0)", setsStr(cs, err))
+	}
+	for k, n := 0, 3+r.Intn(4); k < n; k++ {
+		query("after")
+	}
+	o.emit(fmt.Sprintf("(bundle.run (scope %s) %s %s %s %s)", bundleScope, w.sxKeys(), sxTrust(w.trusted), hs(w.permLoc), strings.Join(ops, " ")),
+		strings.Join(outs, " | "))
+}
+
 func famBundle(r *Rng, o *Out, tier string) {
 	f6Probe(r, o)
 	n := 150
@@ -1076,6 +1305,7 @@ func famBundle(r *Rng, o *Out, tier string) {
 			w.episode()
 		}
 		w.tpAttenuationEpisode()
+		flyioEpisode(r, o)
 	}
 }
 
